@@ -218,10 +218,17 @@ with xml_match_members (fuel : nat) (l : list (string * jv)) (s : bytes) : list 
                                 end) (seq 0 (List.length l))
       end
   end.
+(* fuel that suffices for a value: one per nesting level and per member *)
+Fixpoint msize (v : jv) : nat :=
+  match v with
+  | JObj l => 2 + List.length l + list_sum (map (fun kv => msize (snd kv)) l)
+  | JList l => 1 + list_sum (map msize l)
+  | _ => 1
+  end.
 Definition xml_conforms (doc : bytes) (v : jv) : bool :=
   existsb (fun r => match r with [] => true | _ => false end)
           (flat_map (take_pref (tag_close (str "data")))
-                    (flat_map (xml_match 4096 None v) (take_pref (xml_decl ++ tag_open (str "data")) doc))).
+                    (flat_map (xml_match (msize v) None v) (take_pref (xml_decl ++ tag_open (str "data")) doc))).
 
 (* equality of trees up to the order of the children (members of a map have no order) *)
 Fixpoint remove_first {A} (p : A -> bool) (l : list A) : option (list A) :=
